@@ -72,7 +72,7 @@ impl Prop for C07 {
         "exploration"
     }
     fn rule(&self) -> String {
-        "run = one seeded encrypted workload (E or C+E, 1..4 recipients, names and contents made of unique high-entropy markers, sizes around the 4 KiB cipher buffer and the 128 KiB chunk) on the unmodified `prod` build, or on `prodv` with NO seed installed in hook H2 (showing the hook is inert by default); the real OS generator is used. The same operations are executed 8 times in the worker process and, on one run in eight, once in each of two freshly spawned processes as their first action: symmetric key (from get_encrypt_parameters), archive nonce and ephemeral public key must be pairwise distinct over all these archives. Sink monitor: no 16-byte marker of any content and no file name occurs anywhere in the bytes the sink received after the header (searched on the whole stored stream, so a marker split across writes is seen). Key lists: every recipient opens the archive and reads it back, alone and at every position among decoy keys; lists without a recipient key, and the empty list, fail to open. distinct_nontrivial = distinct (variant, layers, recipients, reader position class, size class, cross-process?) signatures.".into()
+        "run = one seeded encrypted workload (E or C+E, 1..4 recipients - one run in 12: 9, 17, 85, 129, 257 or 300, of which the first, second, 9th, middle, 256th/257th, last ones and two random ones are tried -, names and contents made of unique high-entropy markers, sizes around the 4 KiB cipher buffer and the 128 KiB chunk) on the unmodified `prod` build, or on `prodv` with NO seed installed in hook H2 (showing the hook is inert by default); the real OS generator is used. The same operations are executed 8 times in the worker process and, on one run in eight, once in each of two freshly spawned processes as their first action: symmetric key (from get_encrypt_parameters), archive nonce and ephemeral public key must be pairwise distinct over all these archives. Sink monitor: no 16-byte marker of any content and no file name occurs anywhere in the bytes the sink received after the header (searched on the whole stored stream, so a marker split across writes is seen). Key lists: every recipient opens the archive and reads it back, alone and at the first three positions among decoy keys (now and then behind 9..40 decoys); lists without a recipient key, and the empty list, fail to open. distinct_nontrivial = distinct (variant, layers, recipients, reader position class, size class, cross-process?) signatures.".into()
     }
     fn assumptions(&self) -> Vec<String> {
         vec![
@@ -95,7 +95,8 @@ impl Prop for C07 {
     fn make(&self, seed: u64, run: u64, _tier: Tier) -> Case {
         let mut rng = Rng::derive(seed, "C07", run, "gen");
         let variant = if rng.chance(3, 4) { "prod" } else { "prodv" };
-        let recipients = rng.range(1, 4) as usize;
+        // usually 1..4 recipients; one run in 12 has a crowd (a recipient deep in the list must still get in)
+        let recipients = if rng.chance(1, 12) { *rng.pick(&[9usize, 17, 85, 129, 257, 300]) } else { rng.range(1, 4) as usize };
         let cfg = ArcCfg { variant: variant.into(), layers: if rng.chance(1, 2) { L_ENC } else { L_ENC | L_COMP }, level: rng.below(12) as u32, recipients, reader: rng.usize_below(recipients), rng_seed: 0, key_seed: rng.u64() };
         let mut ops = Vec::new();
         let nf = rng.range(1, 3);
@@ -209,9 +210,19 @@ impl Prop for C07 {
         let img = Rc::new(image);
         let mut drng = Rng::new(case.param("decoy_seed", 1) as u64);
         let decoy = |r: &mut Rng| -> String { hex::encode(r.bytes(32)) };
-        for i in 0..case.cfg.recipients {
+        let nrec = case.cfg.recipients;
+        let mut tested: Vec<usize> = if nrec <= 4 { (0..nrec).collect() } else { vec![0, 1, 8, nrec / 2, 255, 256, nrec - 2, nrec - 1, drng.usize_below(nrec), drng.usize_below(nrec)] };
+        tested.retain(|i| *i < nrec);
+        tested.sort();
+        tested.dedup();
+        for i in tested {
             let right = hex::encode(key_bytes(case.cfg.key_seed, i));
-            for pos in 0..3usize {
+            // position of the right key among decoys: first, second, third, and now and then deep in a long list
+            let mut positions = vec![0usize, 1, 2];
+            if drng.chance(1, 4) {
+                positions.push(drng.range(9, 40) as usize);
+            }
+            for pos in positions {
                 let mut keys: Vec<String> = (0..pos).map(|_| decoy(&mut drng)).collect();
                 keys.push(right.clone());
                 for _ in 0..drng.below(2) {
